@@ -10,6 +10,7 @@ CONSTANTS
     ReadVariant = "tail"
     Emit = "cases"
     Regs = {}
+    InitMem = "pattern"
     DisVariant = "masked"
 SPECIFICATION SpecMem
 VIEW View
